@@ -456,3 +456,121 @@ Example C08_example_event_types :
   = [ EtOk (mkEType 0 0 None); EtErr EDuplicate; EtOk (mkEType 1 0 (Some [(0, TInt)]));
       EtErr ENameNotStr; EtErr EKeyNotStr; EtErr EDuplicate; EtErr EValueNotType ].
 Proof. reflexivity. Qed.
+
+(* ====================================================================== *)
+(* 7. The tie to the source TEXT                                           *)
+(* ====================================================================== *)
+(* PubSub/Gen_PubSub.v is regenerated on every run by
+   translator/py2gallina_pubsub.py from the method bodies of EventType, Event,
+   TimedEvent and EventProducer in src/pydsol/core/pubsub.py of the tree under
+   test (Python `ast`, fail-closed; dict / list operations on the listener map,
+   the delivery loop over the snapshot, the argument guards and the payload /
+   metadata checks in their order), and PubSub/GenAgree.v proves every generated
+   definition equal to the hand-written model function the theorems above are
+   about - for all states, arguments, listener programs and fuel.  Two
+   equalities carry the hypothesis that a Python dict has unique keys: [env_wf E]
+   (the metadata an event type carries) and [rawmd_wf md] (the metadata argument
+   of EventType), because the source looks the declared class up by key where
+   the model walks the (key, class) pairs.  [model_add] .. [model_fire_timed_event]
+   are the model's [pure_step] / [exec] read per method (gen_pure_step_eq,
+   gen_exec_eq make that precise); [gen_exec], [gen_run_top], [gen_make_types] are
+   the model's dispatch with every method replaced by its generated definition.
+   With these equalities every theorem above is a theorem about what the source
+   says now; the main ones are restated over the generated definitions below.
+   A change of pubsub.py that changes the meaning of a method makes GenAgree.v
+   fail to compile: the check then reports the broken tie. *)
+From PV Require Import PubSub.Gen_PubSub PubSub.GenAgree.
+
+Theorem C08_generated_model_is_the_proved_model :
+  gen_EventProducer___init__ = [] /\
+  (forall m a b, gen_EventProducer_add_listener m a b = model_add m a b) /\
+  (forall m a b, gen_EventProducer_remove_listener m a b = model_remove m a b) /\
+  (forall m a b, gen_EventProducer_remove_all_listeners m a b = model_remove_all m a b) /\
+  (forall m, gen_EventProducer_has_listeners m = has_listeners m) /\
+  (forall step s p oe, gen_EventProducer_fire_event step s p oe = model_fire_event step s p oe) /\
+  (forall step s p oe, gen_EventProducer_fire_timed_event step s p oe = model_fire_timed_event step s p oe) /\
+  (forall E, env_wf E ->
+     (forall a c chk, gen_Event___init__ E a c chk = make_event E a c chk) /\
+     (forall ts a c chk, gen_TimedEvent___init__ E ts a c chk = make_timed E ts a c chk) /\
+     (forall step s p a c chk, gen_EventProducer_fire E step s p a c chk = fire_mk step s p (make_event E a c chk)) /\
+     (forall step s p ts a c chk,
+        gen_EventProducer_fire_timed E step s p ts a c chk = fire_mk step s p (make_timed E ts a c chk)) /\
+     (forall fuel s o, gen_exec E fuel s o = exec E fuel s o) /\
+     (forall fuel ops s, gen_run_top E fuel s ops = run_top E fuel s ops)) /\
+  (forall s o, gen_pure_step s o = pure_step s o) /\
+  (forall reg site name md, rawmd_wf md ->
+     gen_EventType___init__ reg site name md = make_event_type reg site name md) /\
+  (forall cs, Forall (fun c => rawmd_wf (snd c)) cs -> forall reg, gen_make_types reg cs = make_types reg cs).
+Proof. exact pubsub_generated_agree. Qed.
+Print Assumptions C08_generated_model_is_the_proved_model.
+
+Theorem C08_generated_every_history_has_a_behaviour :
+  forall E scr ops, env_wf E ->
+    exists s' t, gen_run_top E (fuel_for (init scr)) (init scr) ops = Some (s', t).
+Proof. exact gen_every_history_has_a_behaviour. Qed.
+Print Assumptions C08_generated_every_history_has_a_behaviour.
+
+(* C08_fire_delivers_exactly_once_in_order_to_subscribers_at_firing, for histories
+   performed by the generated methods *)
+Theorem C08_generated_fire_delivers_exactly_once_in_order_to_subscribers_at_firing :
+  forall E fuel scr ops s' t i ev subs, env_wf E ->
+    gen_run_top E fuel (init scr) ops = Some (s', t) ->
+    In (ObsFire i ev subs) t -> In (ObsFireDone i) t ->
+    notified i t = subs /\
+    (forall l, count_occ Nat.eq_dec (notified i t) l = if memb l subs then 1 else 0) /\
+    Forall (fun d => snd d = ev) (dels i t).
+Proof. exact gen_exactly_once_history. Qed.
+Print Assumptions C08_generated_fire_delivers_exactly_once_in_order_to_subscribers_at_firing.
+
+Theorem C08_generated_fire_delivers_snapshot_history :
+  forall E fuel scr ops s' t i ev subs, env_wf E ->
+    gen_run_top E fuel (init scr) ops = Some (s', t) ->
+    In (ObsFire i ev subs) t ->
+    NoDup subs /\
+    (exists k, dels i t = to ev (firstn k subs)) /\
+    (In (ObsFireDone i) t -> dels i t = to ev subs) /\
+    (forall ev' subs', In (ObsFire i ev' subs') t -> ev' = ev /\ subs' = subs).
+Proof. exact gen_fire_delivers_snapshot_history. Qed.
+Print Assumptions C08_generated_fire_delivers_snapshot_history.
+
+Theorem C08_generated_nobody_else :
+  forall E fuel scr ops s' t i l ev, env_wf E ->
+    gen_run_top E fuel (init scr) ops = Some (s', t) ->
+    In (ObsDeliver i l ev) t ->
+    exists subs, In (ObsFire i ev subs) t /\ In l subs.
+Proof. exact gen_nobody_else_history. Qed.
+Print Assumptions C08_generated_nobody_else.
+
+Theorem C08_generated_event_accepted_iff :
+  forall E et c chk, env_wf E -> payload_wf c ->
+    ((exists e, gen_Event___init__ E (Good et) c chk = MkOk e) <-> acceptable (md_of E et) c chk).
+Proof. exact gen_event_accepted_iff. Qed.
+Print Assumptions C08_generated_event_accepted_iff.
+
+Theorem C08_generated_timed_event_keeps_timestamp :
+  forall E ts a c chk e, env_wf E ->
+    gen_TimedEvent___init__ E ts a c chk = MkOk e ->
+    ev_time e = Some ts /\ ev_content e = c /\ a = Good (ev_type e).
+Proof. exact gen_timed_event_keeps_timestamp. Qed.
+Print Assumptions C08_generated_timed_event_keeps_timestamp.
+
+Theorem C08_generated_event_type_created_iff :
+  forall reg site name md e, rawmd_wf md ->
+    (snd (gen_EventType___init__ reg site name md) = EtOk e <->
+     exists n, name = NameStr n /\ ~ In (site, n) reg /\
+       ((md = None /\ e = mkEType site n None) \/
+        (exists m, md = Some (encode m) /\ e = mkEType site n (Some m)))).
+Proof. exact gen_event_type_created_iff. Qed.
+Print Assumptions C08_generated_event_type_created_iff.
+
+(* the two well-formedness hypotheses are satisfiable (they say: a Python dict) *)
+Example C08_generated_hypotheses_satisfiable :
+  env_wf [None; Some [(0, TInt); (1, TBase)]] /\ rawmd_wf (Some [(KStr 0, VType TInt); (KNotStr, VNotType)]).
+Proof. exact env_wf_example. Qed.
+
+(* the example history of the non-vacuity section, performed by the generated methods *)
+Example C08_generated_example_reentrant_history :
+  exists s' t,
+    gen_run_top [None; None] (fuel_for (init ex_scripts)) (init ex_scripts) ex_ops = Some (s', t) /\
+    notified 0 t = [0; 1; 2] /\ notified 1 t = [2] /\ notified 2 t = [0; 2; 3].
+Proof. eexists. eexists. split; [vm_compute; reflexivity |]. vm_compute. repeat split. Qed.
